@@ -321,7 +321,7 @@ def c_obs(ob):
 
 
 IMPOSSIBLE = ("{| c_prog := []; c_env := mk_env 0 0 0 0 []; c_plain := Some {| o_ops := []; o_duration := 1; o_comps := [] |}; "
-              "c_plain_dur_first := None; c_unrolled := None; c_unrolled_twice := None; c_unrolled_dur_first := None; c_stable := false; c_reps_after := [] |}")
+              "c_plain_dur_first := None; c_unrolled := None; c_unrolled_twice := None; c_unrolled_dur_first := None; c_stable := false; c_reps_after := []; c_top_ref := [] |}")
 
 
 def c_case(case, out):
@@ -334,7 +334,8 @@ def c_case(case, out):
     return (f"{{| c_prog := {prog}; c_env := {env}; c_plain := {c_obs(out.get('plain'))}; "
             f"c_plain_dur_first := {c_obs(out.get('plain_dur_first'))}; c_unrolled := {c_obs(out.get('unrolled'))}; "
             f"c_unrolled_twice := {c_obs(out.get('unrolled_twice'))}; c_unrolled_dur_first := {c_obs(out.get('unrolled_dur_first'))}; "
-            f"c_stable := {cbool((out.get('plain') or {}).get('again', True))}; c_reps_after := {reps_after} |}}")
+            f"c_stable := {cbool((out.get('plain') or {}).get('again', True))}; c_reps_after := {reps_after}; "
+            f"c_top_ref := {clist([cz(x) for x in out.get('top_ref', [])])} |}}")
 
 
 # ------------------------------------------------------------------------------------------------ shrinking
